@@ -132,6 +132,39 @@ def h_serial_history(ctx, which):
         return ",".join(labels[1::2])
 
 
+def h_serial_widths(ctx, which):
+    """An observed 16-bit frame followed by the observed 24-bit frame 00:<the same two bytes> (an event from
+    control device 0), through the receiver with the real decoder: two reports, the second a 24-bit one with
+    its own bits - frames of different widths that agree as numbers are different frames."""
+    reps = (0x8000, 0xFE80, 0x01A0, 0xA300, 0x0100, 0x7F2A, 0x05E2, 0xFFFF)
+    y = reps[ctx.fresh_choice("y", len(reps))]
+    with _patched(ctx, stub=False):
+        p = S.DriverLubaRs232.LubaProtocol() if which == "luba" else S.DriverSCIRS232.SCIRS232Protocol()
+        q = S.DistributorQueue(p.queue_rx_dali)
+        fb = [(y >> 8) & 0xFF, y & 0xFF]
+        pk16 = rigs.luba_event_rx(fb) if which == "luba" else rigs.sci_frame(0x13, 0, fb[0], fb[1])
+        pk24 = rigs.luba_event_rx([0] + fb) if which == "luba" else rigs.sci_frame(0x18, 0, fb[0], fb[1])
+        st, r = call(lambda: (p.data_received(pk16), p.data_received(pk24)))
+        tag = "%s-widths" % which
+        if st == "exc":
+            ctx.fail("receiver raised %r" % (r,), key=tag + "/raised:" + type(r).__name__)
+            return "raised"
+        got = []
+        while q.qsize():
+            got.append(q.get_nowait())
+        ctx.prove(len(got) == 2, "%d reports for two observed frames" % len(got), key=tag + "/count")
+        if len(got) == 2:
+            ctx.prove(len(got[0].frame) == 16 and got[0].frame.as_integer == y, "first report is not the 16-bit frame",
+                      key=tag + "/first")
+            ctx.prove(len(got[1].frame) == 24 and got[1].frame.as_integer == y,
+                      "the 24-bit frame 00:%04x was reported as %s with a %d-bit frame"
+                      % (y, type(got[1]).__name__, len(got[1].frame)), key=tag + "/second")
+            st2, want = call(C.from_frame, F.ForwardFrame(24, y))
+            ctx.prove(st2 == "ok" and type(got[1]) is type(want), "the 24-bit frame was decoded as %s, on its own it is %s"
+                      % (type(got[1]).__name__, type(want).__name__ if st2 == "ok" else want), key=tag + "/class")
+        return "%04x" % y
+
+
 def _burst(ctx, which, n):
     from harness.c19_deframe import h_burst
     return h_burst(ctx, which, n)
@@ -498,6 +531,7 @@ def cases(tier):
         cs.append(Case("%s-subscriber-history" % which, h_subscriber_history, {"which": which, "steps": nsteps}))
         cs.append(Case("%s-history" % which, h_serial_history, {"which": which}))
         cs.append(Case("%s-burst-80" % which, _burst, {"which": which, "n": 80}))
+        cs.append(Case("%s-widths" % which, h_serial_widths, {"which": which}))
     cs.append(Case("callback-history", h_callback_history, {"steps": nsteps}))
     cs.append(Case("callback-reentrant", h_callback_reentrant, {"nsubs": 3 if tier == "quick" else 4}))
     inst = rigs.install_tridonic_structs
